@@ -165,34 +165,9 @@ def run(ctx) -> Result:
         res.check(not probs, "U5", f"Dataset.unified_dataset:{label}", proj.method(w.D, "unified_dataset").loc(),
                   ok_detail="complete dataset satisfying the invariants", bad_detail="; ".join(probs[:2]))
     # projection
+    check_projection(res, proj, "U5", thorough=ctx.thorough)
     raws = START[0][1]
     cur = typed(raws, True)
-    pj = proj.method(w.D, "sub_problem_from_elements")
-    for keep in ({("int", 1), ("int", 3)}, {("int", 4)}, {("int", 2)}, {("int", 1), ("int", 2), ("int", 3), ("int", 4)}):
-        for keep_empty in (False, True):
-            st, d = w.safe("Dataset()", w.dataset, raws)
-            elems = {w.element(v) for _t, v in keep}
-            kw = {"keep_empty_rankings": True} if keep_empty else {}
-            st, sp = w.safe("sub_problem_from_elements", w.call, d, "sub_problem_from_elements", elems, **kw)
-            want = []
-            for r in cur:
-                nr = [b & keep for b in r if b & keep]
-                if nr or keep_empty:
-                    want.append(nr)
-            probs = []
-            if st != "ok":
-                probs.append(f"raised {sp}")
-            else:
-                if w.raw_dataset(sp) != want:
-                    probs.append(f"projection on {keep} gives {w.raw_dataset(sp)}, expected {want}")
-                probs.extend(w.dataset_problems(sp, "projected dataset"))
-                if w.raw_dataset(d) != cur:
-                    probs.append("projection modified the source dataset")
-            res.check(not probs, "U5", f"Dataset.sub_problem_from_elements:keep={sorted(v for _t, v in keep)}:"
-                                       f"keep_empty={keep_empty}", pj.loc(),
-                      ok_detail="exactly the rankings meeting the kept set" + (" (all rankings kept)" if keep_empty else "")
-                                + ", non-empty intersections in order",
-                      bad_detail="; ".join(probs[:2]))
     # by ids
     st, d = w.safe("Dataset()", w.dataset, raws)
     e2i = {w.key(k): v for k, v in w.call(d, "mapping_elem_id").items()}
@@ -208,6 +183,61 @@ def run(ctx) -> Result:
     res.not_decided.append("value-level agreement of the views for histories longer than the explored bound (each step "
                            "re-establishes the invariants from the rankings alone, which is what the bound exercises)")
     return res
+
+
+PROJECTION_DATASETS = [
+    [[{1}, {2, 3}, {4}], [{4}, {3}, {2}, {1}], [{2, 1}, {3, 4}], [{3}]],
+    [[{1, 3, 5}, {2}, {4}], [{3}, {4, 5}, {1}], [{4}, {1}, {3}]],
+    [[{1, 2, 3, 4}], [{5}, {1, 2}, {3}], [], [{4}, {5}]],
+    [[{"a", "b"}, {"c"}], [{"c"}, {"a"}], [{"d", "a", "c"}, {"b"}]],
+]
+
+
+def check_projection(res: Result, proj: Project, rule: str, thorough: bool = False):
+    """Dataset.sub_problem_from_elements against the definitional projection, for every non-empty subset of the
+    universe of several datasets (buckets mixing kept and dropped elements, kept elements spread over all buckets)."""
+    import itertools
+    w = World(proj)
+    pj = proj.method(w.D, "sub_problem_from_elements")
+    total = 0
+    first = None
+    for raws in PROJECTION_DATASETS:
+        as_int = all_intlike(raws)
+        cur = typed(raws, as_int)
+        uni = sorted(set().union(*[b for r in cur for b in r]), key=repr)
+        subsets = [set(c) for k in range(1, len(uni) + 1) for c in itertools.combinations(uni, k)]
+        if not thorough:
+            subsets = subsets[::2] + [set(uni)]
+        for keep in subsets:
+            for keep_empty in (False, True):
+                st, d = w.safe("Dataset()", w.dataset, raws)
+                elems = {w.element(v) for _t, v in keep}
+                kw = {"keep_empty_rankings": True} if keep_empty else {}
+                st, sp = w.safe("sub_problem_from_elements", w.call, d, "sub_problem_from_elements", elems, **kw)
+                want = []
+                for r in cur:
+                    nr = [b & keep for b in r if b & keep]
+                    if nr or keep_empty:
+                        want.append(nr)
+                total += 1
+                probs = []
+                if st != "ok":
+                    probs.append(f"raised {sp}")
+                else:
+                    if w.raw_dataset(sp) != want:
+                        probs.append(f"gives {[[{v for _t, v in b} for b in r] for r in w.raw_dataset(sp)]}, expected "
+                                     f"{[[{v for _t, v in b} for b in r] for r in want]}")
+                    if want and any(want):
+                        probs.extend(w.dataset_problems(sp, "projected dataset"))
+                    if w.raw_dataset(d) != cur:
+                        probs.append("projection modified the source dataset")
+                if probs and first is None:
+                    first = (raws, sorted(v for _t, v in keep), keep_empty, probs)
+    res.check(first is None, rule, "Dataset.sub_problem_from_elements:all-subsets", pj.loc(),
+              ok_detail=f"{total} projections (every kept subset of {len(PROJECTION_DATASETS)} datasets, with and without "
+                        f"empty rankings kept): exactly the non-empty intersections, in order",
+              bad_detail=(f"dataset {first[0]} projected on {first[1]} (keep_empty_rankings={first[2]}): "
+                          f"{'; '.join(first[3][:2])}") if first else "")
 
 
 def _history_worker(job):
